@@ -670,6 +670,19 @@ func constTerm(v constant.Value, typ types.Type, e *Engine) (Value, bool) {
 }
 
 func (e *Engine) eval(x ast.Expr, st *State) Value {
+	// decimal literals denote their decimal value: arithmetic is over the reals, so 0.015 is 3/200 and not the
+	// nearest float64 (go/types rounds a literal as soon as it gets a float64 type)
+	if lit, ok := ast.Unparen(x).(*ast.BasicLit); ok && lit.Kind == token.FLOAT {
+		if tv, ok := e.info().Types[x]; ok && tv.Type != nil {
+			t := tv.Type
+			if b, ok := t.(*types.Basic); ok && b.Info()&types.IsUntyped != 0 {
+				t = types.Default(t)
+			}
+			if r, ok := new(big.Rat).SetString(strings.ReplaceAll(lit.Value, "_", "")); ok && e.sortOf(t) == SReal {
+				return VTerm{T: mkRat(r), Typ: t}
+			}
+		}
+	}
 	if tv, ok := e.info().Types[x]; ok && tv.Value != nil {
 		t := tv.Type
 		if b, ok := t.(*types.Basic); ok && b.Info()&types.IsUntyped != 0 {
@@ -1044,6 +1057,9 @@ func (e *Engine) evalComposite(cl *ast.CompositeLit, st *State) Value {
 		ref := e.fresh("obj_"+typeShort(t), SRef)
 		e.localRefs[ref.String()] = true
 		e.dynType[ref.String()] = types.NewPointer(t)
+		if dn := dynTypeName(t); dn != "" {
+			st.assume(mkEq(mkApp("dyntype", SInt, ref), typeTag(dn)))
+		}
 		base := VTerm{T: ref, Typ: t}
 		given := map[string]Value{}
 		skipped := map[string]bool{}
